@@ -30,7 +30,14 @@ Fragment(c, v) ==
                                 [] v = 4 -> Insn("lda", "imm", Bin("+", Id(<<"nosuchsym">>), Def(<<"far">>)), "F1")
                                 [] v = 5 -> Insn("lda", "imm", Bin("+", Def(<<"nosuchsym2">>), Id(<<"nosuchsym">>)), "F1")
                                 [] v = 6 -> [k |-> "if", e |-> Bin("&&", Id(<<"nosuchsym">>), Def(<<"far">>)), hasElse |-> FALSE, else |-> <<>>, sid |-> "F1", then |-> <<Nop("F2")>>]
-                                [] OTHER -> [k |-> "data", w |-> 1, es |-> <<N(1), Bin("-", Id(<<"nosuchsym">>), Def(<<"far">>))>>, sid |-> "F1"]>>
+                                [] v = 7 -> [k |-> "data", w |-> 1, es |-> <<N(1), Bin("-", Id(<<"nosuchsym">>), Def(<<"far">>))>>, sid |-> "F1"]
+                                (* the undefined name in every other place a statement evaluates an expression *)
+                                [] v = 8 -> [k |-> "align", e |-> Id(<<"nosuchsym">>), sid |-> "F1"]
+                                [] v = 9 -> [k |-> "setpc", e |-> Bin("+", Id(<<"nosuchsym">>), N(8192)), sid |-> "F1"]
+                                [] v = 10 -> [k |-> "if", e |-> Id(<<"nosuchsym">>), hasElse |-> TRUE, else |-> <<Nop("F2")>>, sid |-> "F1", then |-> <<>>]
+                                [] v = 11 -> [k |-> "const", name |-> "dupq", e |-> Bin("*", Id(<<"nosuchsym">>), N(2)), sid |-> "F1"]
+                                [] v = 12 -> [k |-> "macrocall", name |-> "mm", args |-> <<Id(<<"nosuchsym">>)>>, sid |-> "F1"]
+                                [] OTHER -> [k |-> "data", w |-> 2, es |-> <<Id(<<"nosuchsym">>)>>, sid |-> "F1"]>>
     [] c = "undefmacro"  -> <<[k |-> "macrocall", name |-> "nosuchmacro", args |-> (IF v = 0 THEN <<>> ELSE <<N(1)>>), sid |-> "F1"]>>
     [] c = "undefseg"    -> <<[k |-> "useseg", name |-> "nosuchseg", hasBody |-> (v = 0), body |-> (IF v = 0 THEN <<Nop("F2")>> ELSE <<>>), sid |-> "F1"]>>
     [] c = "labelredef"  -> <<[k |-> "label", name |-> "dupl", hasBody |-> FALSE, body |-> <<>>, sid |-> "F1"], Nop("x"),
